@@ -20,7 +20,7 @@ RULE = (
     "Programs = generated flat CAN schemas with 1-3 devices x 1-4 messages, each message with period in {absent (-1), "
     "1..50}; per program 6 (quick) / 20 (thorough) generated call histories of up to 40 steps, each run in a fresh process "
     "of the compiled driver (function-static scheduler state starts at zero): steps are advance(device, delta) with delta "
-    "from {0, 1, P-1, P, P+1, 2P, large, jump to just below 2^32 (wrap-around)} applied to a 32-bit wrapping clock, and "
+    "from {0, 1, P-1, P, P+1, 2P, large, jump to just below 2^32 (wrap-around), jump to 2^32-1, advance by 2^32-1} applied to a 32-bit wrapping clock, and "
     "set(message, value). Oracle = 10-line reference automaton from the statement: on a call with time t != previous call's "
     "time (initially 0), message m with period P != -1 is sent iff (t - last_send[m]) mod 2^32 >= P, then last_send[m] = t; "
     "after every step the frames handed to the callback must be exactly the expected messages in order and each frame the "
@@ -49,7 +49,8 @@ def case(draw, n_hist: int):
             k = draw(st.integers(0, 9))
             if k <= 6:
                 p = draw(st.sampled_from(pool))
-                delta = draw(st.sampled_from([0, 0, 1, max(p - 1, 0), p, p + 1, 2 * p, 3 * p + 1, 1000, 2**31, "wrap"]))
+                delta = draw(st.sampled_from([0, 0, 1, 1, max(p - 1, 0), p, p + 1, 2 * p, 3 * p + 1, 1000, 2**31, "wrap", "wrap",
+                                              "max", "cycle_minus_1"]))
                 steps.append(("T", draw(st.integers(0, len(devs) - 1)), delta))
             else:
                 mi = draw(st.integers(0, len(msgs) - 1))
@@ -85,6 +86,10 @@ def simulate(s: M.Schema, vals: Dict[str, List[Dict[str, Any]]], steps: List[Tup
             continue
         if b == "wrap":
             new = (2**32 - 3) if time < 2**32 - 3 else (time + 5) % 2**32
+        elif b == "max":
+            new = 2**32 - 1  # the largest timestamp, one tick before the wrap
+        elif b == "cycle_minus_1":
+            new = (time - 1) % 2**32  # advance by 2^32 - 1: elapsed time since "now" becomes 0xFFFFFFFF
         else:
             new = (time + b) % 2**32
         if new < time:
